@@ -7,7 +7,10 @@ a = {}
 try:
     a = json.load(open(d + '/meta.agent.json'))
 except Exception:
-    pass
+    try:
+        a = json.load(open(d + '/meta.json'))   # re-recording a verdict keeps the description
+    except Exception:
+        pass
 m = {
  'id': sid, 'property': prop,
  'what_it_breaks': a.get('what_it_breaks', ''),
